@@ -87,10 +87,10 @@ def run(check):
     n = check.pick(60, 500)
     check.rule = ("generated workflow trees written to disk (sub-workflow nesting 0-3, sub-workflows shared by two loop steps, sub-directories; output ids success / error "
                   "(inferred) / explicit outputSchema with and without the error flag / custom ids); each tree is run (a) through engine.New().Parse + Run with a file "
-                  "cache built from an absolute and from a relative context directory, from different working directories, from disk and from memory, several times, and (b) "
+                  "cache built from an absolute and from a relative context directory, from different working directories (also changed between building the cache and parsing, with a decoy tree at the same relative path), from disk and from memory, several times, and (b) "
                   "directly through Prepare + Execute on the same text; oracles: (a) == (b) == reference in id and data, outputIsError == declared flag (inferred: id is "
                   "'error'), identical results across working directories / cache kinds / repetitions; plus the real command line binary (scripted deployer registered by "
-                  "an overlaid init) for the exit-code table 0 / 2 / 3 / 1; distinct = (tree shape, output kind, access variant)")
+                  "an overlaid init) for the exit-code table 0 / 2 / 3 / 1 and the printed output id and data; distinct = (tree shape, output kind, access variant)")
     check.assumptions = ["exit code for an invalid *input* file is not asserted (the CLI reports it as a failed run)"]
     items = []
     variants = [("abs", {"cache": "context"}), ("rel", {"cache": "context", "rel_dir": True, "chdir": "elsewhere/deep"}), ("subdir-ctx", {"cache": "context", "dir": "ctx", "chdir": "other"}),
